@@ -2,10 +2,16 @@ package main
 
 import (
 	"fmt"
+	"github.com/tuneinsight/lattigo/v6/utils/bignum"
+	"math"
+	"math/big"
+	"verif/uni"
 
 	bgvlt "github.com/tuneinsight/lattigo/v6/circuits/bgv/lintrans"
 	ckkslt "github.com/tuneinsight/lattigo/v6/circuits/ckks/lintrans"
 	"github.com/tuneinsight/lattigo/v6/circuits/common/lintrans"
+
+	"github.com/tuneinsight/lattigo/v6/core/rlwe"
 
 	"verif/engine"
 	"verif/lib/circ"
@@ -46,6 +52,18 @@ func specialScenarios(tier string) []engine.Scenario {
 			name := fmt.Sprintf("known-class/%s/many-after-giant-step/ratio%d", tg.name, ratio)
 			scs = append(scs, engine.Scenario{Name: name, Bound: 0, Fn: func(c *engine.Chooser) { tg.leaf(c, name, cfg) }})
 		}
+	}
+	// Encode with another index set than allocated; documented refusals of the evaluator
+	{
+		bs := circ.BGVSpec{LogN: 4, NQ: 4, QBits: 30, NP: 2, PBits: 30, T: 97}
+		cs := circ.CKKSSpec{LogN: 4, NQ: 4, Q0Bits: 50, QBits: 40, NP: 2, PBits: 50, LogScale: 40}
+		scs = append(scs,
+			engine.Scenario{Name: "encode-mismatch/bgv", Bound: -1, Fn: func(c *engine.Chooser) { encodeMismatchLeaf(c, getBGVAdapter(c, bs), "encode-mismatch/bgv") }},
+			engine.Scenario{Name: "encode-mismatch/ckks", Bound: -1, Fn: func(c *engine.Chooser) { encodeMismatchLeaf(c, getCKKSAdapter(c, cs, 3), "encode-mismatch/ckks") }},
+			engine.Scenario{Name: "refusals/bgv", Bound: -1, Fn: func(c *engine.Chooser) { refusalLeaf(c, getBGVAdapter(c, bs), "refusals/bgv") }},
+			engine.Scenario{Name: "high-precision/ckks-scale90", Bound: -1, Fn: highPrecisionLeaf},
+			engine.Scenario{Name: "refusals/ckks", Bound: -1, Fn: func(c *engine.Chooser) { refusalLeaf(c, getCKKSAdapter(c, cs, 3), "refusals/ckks") }},
+		)
 	}
 	scs = append(scs, permScenarios(tier)...)
 	return scs
@@ -267,4 +285,263 @@ func permEvaluate[T any](c *engine.Chooser, a *adapter[T], sig, what string, dia
 	}
 	p := plan{describe: what, mats: []matrixPlan{{idx: idx, ratio: ratio, levelQ: a.maxLevel}}}
 	judge(c, a, sig+"/EvaluateNew", "", false, p, 0, out, a.maxLevel, a.mulScale(a.fromScale(ctScale), ltScale), want, eps)
+}
+
+// ---------------------------------------------------------------------------------------------
+// Encode with a matrix whose index set differs from the one the transformation was allocated for.
+//
+// Doc: Encode returns "plaintext diagonal [%d] does not exist" / "input does not match the same non-zero diagonals";
+// tutorial: "trying to encode a linear transformation with different non-zero diagonals ... will return an error".
+// Oracle: refused -> counted; accepted -> Evaluate must equal the product by the matrix that was GIVEN to Encode
+// (missing diagonals are zero); an accepted call that evaluates another matrix is the violation.
+
+var mismatchShapes = []string{"superset", "subset", "one-index-different", "congruent-mod-n", "equal"}
+
+func encodeMismatchLeaf[T any](c *engine.Chooser, a *adapter[T], scName string) {
+	bases := [][]int{{0, 1, 3}, {-2, 5}, {1, 2, 3, 4, 6}}
+	A := bases[c.ChooseFree(len(bases), "allocated")]
+	shape := c.ChooseFree(len(mismatchShapes), "given")
+	ratio := []int{-1, 0, 1}[c.ChooseFree(3, "ratio")]
+	n := a.n
+	G := append([]int(nil), A...)
+	switch mismatchShapes[shape] {
+	case "superset":
+		G = append(G, 7)
+	case "subset":
+		G = G[:len(G)-1]
+	case "one-index-different":
+		G[len(G)-1] = 7
+	case "congruent-mod-n":
+		// the same diagonals named by other integers of (-n, n)
+		for i, k := range G {
+			if k > 0 {
+				G[i] = k - n
+			} else if k < 0 {
+				G[i] = k + n
+			}
+		}
+	}
+	algo := "naive"
+	if ratio >= 0 {
+		algo = "bsgs"
+	}
+	desc := fmt.Sprintf("%s allocated=%v given=%v (%s) ratio=%d", a.scheme, A, G, mismatchShapes[shape], ratio)
+	c.Note("%s", desc)
+	c.Cover("encode-mismatch", mismatchShapes[shape]+"/"+algo)
+	sig := "C12/lintrans/Encode/index-set-mismatch/" + mismatchShapes[shape] + "/" + algo
+	given := map[int][]T{}
+	for _, k := range G {
+		given[k] = a.diag(0, ((k%n)+n)%n)
+	}
+	v := a.input()
+	ct := a.ciphertext(c, "input", v, a.maxLevel, false)
+	lp := lintrans.Parameters{DiagonalsIndexList: append([]int(nil), A...), LevelQ: a.maxLevel, LevelP: a.maxLvlP, Scale: a.ltScale(false),
+		LogDimensions: ct.LogDimensions, LogBabyStepGiantStepRatio: ratio}
+	var lt lintrans.LinearTransformation
+	var gals []uint64
+	var err error
+	if pe := recoverToErr(func() error { lt, gals, err = a.newLT(c, lp, given); return nil }); pe != "" {
+		c.Fail(sig+"/panic", "%s: %s", desc, pe)
+		return
+	}
+	legal := mismatchShapes[shape] == "equal" || mismatchShapes[shape] == "congruent-mod-n"
+	if err != nil {
+		if legal {
+			c.Fail(sig+"/refused", "%s: the same diagonals are refused: %v", desc, err)
+			return
+		}
+		c.Cover("rejected", "encode-mismatch/"+mismatchShapes[shape])
+		c.Outcome("rejected", desc)
+		return
+	}
+	ev, _ := a.newEval(a.galoisKeys(c, gals, -1, a.maxLvlP))
+	var out *rlwe.Ciphertext
+	if pe := recoverToErr(func() error { out, err = ev.EvaluateNew(ct, lt); return nil }); pe != "" {
+		c.Fail(sig+"/evaluate-panic", "%s: %s", desc, pe)
+		return
+	}
+	if err != nil {
+		c.Fail(sig+"/evaluate-error", "%s: Encode accepted, EvaluateNew: %v", desc, err)
+		return
+	}
+	want := matvec(a.f, given, v, a.rows, n)
+	eps := 0.0
+	if a.ltErr != nil {
+		eps = a.ltErr(a.freshErr(a.ctScale(false)), maxAbs(a.f, v), dmaxOf(a, given), a.fromScale(a.ctScale(false)), a.ltScale(false), a.maxLevel, a.maxLvlP, giantSteps(A)+len(G))
+	}
+	got := a.decode(out, a.mulScale(a.fromScale(a.ctScale(false)), a.ltScale(false)))
+	for j := range want {
+		if !a.equal(got[j], want[j], eps) {
+			c.Fail(sig+"/accepted-but-another-matrix", "%s: Encode returned nil but Evaluate is not the product by the matrix given to Encode (slot %d)\n got  %s\n want %s", desc, j, a.show(got), a.show(want))
+			break
+		}
+	}
+	c.Cover("accepted", "encode-mismatch/"+mismatchShapes[shape])
+	c.Outcome("accepted", desc)
+	c.Count(1)
+}
+
+// ---------------------------------------------------------------------------------------------
+// Documented refusals of the evaluator: each must be an error (not a panic, not a result); the nearest legal call is
+// exercised by every ordinary leaf.
+
+var refusalKinds = []string{"missing-galois-key", "levelP-differs-from-keys", "many-output-slice-too-short", "many-nil-receiver", "many-levelP-differ"}
+
+func refusalLeaf[T any](c *engine.Chooser, a *adapter[T], scName string) {
+	kind := refusalKinds[c.ChooseFree(len(refusalKinds), "refusal")]
+	ratio := []int{-1, 1}[c.ChooseFree(2, "ratio")]
+	if a.maxLvlP == 0 && (kind == "levelP-differs-from-keys" || kind == "many-levelP-differ") {
+		c.Skip("one P prime only")
+		return
+	}
+	desc := fmt.Sprintf("%s %s ratio=%d", a.scheme, kind, ratio)
+	c.Note("%s", desc)
+	c.Cover("refusal", kind)
+	sig := "C12/lintrans/refusal/" + kind
+	v := a.input()
+	ct := a.ciphertext(c, "input", v, a.maxLevel, false)
+	idx := []int{1, 2, 5}
+	mk := func(levelP int) (lintrans.LinearTransformation, []uint64) {
+		d := map[int][]T{}
+		for _, k := range idx {
+			d[k] = a.diag(0, k)
+		}
+		lt, gals, err := a.newLT(c, lintrans.Parameters{DiagonalsIndexList: idx, LevelQ: a.maxLevel, LevelP: levelP, Scale: a.ltScale(false),
+			LogDimensions: ct.LogDimensions, LogBabyStepGiantStepRatio: ratio}, d)
+		if err != nil {
+			panic(fmt.Sprintf("harness: %v", err))
+		}
+		return lt, gals
+	}
+	lt, gals := mk(a.maxLvlP)
+	var err error
+	pe := recoverToErr(func() error {
+		switch kind {
+		case "missing-galois-key":
+			ev, _ := a.newEval(a.galoisKeys(c, gals[1:], -1, a.maxLvlP)) // one advertised key is not there
+			_, err = ev.EvaluateNew(ct, lt)
+		case "levelP-differs-from-keys":
+			ev, _ := a.newEval(a.galoisKeys(c, gals, -1, a.maxLvlP-1)) // keys with one P prime less than the transformation
+			_, err = ev.EvaluateNew(ct, lt)
+		case "many-output-slice-too-short":
+			ev, _ := a.newEval(a.galoisKeys(c, gals, -1, a.maxLvlP))
+			err = ev.EvaluateMany(ct, []lintrans.LinearTransformation{lt, lt}, []*rlwe.Ciphertext{a.newCt(a.maxLevel)})
+		case "many-nil-receiver":
+			ev, _ := a.newEval(a.galoisKeys(c, gals, -1, a.maxLvlP))
+			err = ev.EvaluateMany(ct, []lintrans.LinearTransformation{lt, lt}, []*rlwe.Ciphertext{a.newCt(a.maxLevel), nil})
+		case "many-levelP-differ":
+			lt2, _ := mk(a.maxLvlP - 1)
+			ev, _ := a.newEval(a.galoisKeys(c, gals, -1, a.maxLvlP))
+			err = ev.EvaluateMany(ct, []lintrans.LinearTransformation{lt, lt2}, []*rlwe.Ciphertext{a.newCt(a.maxLevel), a.newCt(a.maxLevel)})
+		}
+		return nil
+	})
+	switch {
+	case pe != "":
+		c.Fail(sig+"/panic", "%s: a documented refusal panics: %s", desc, pe)
+	case err == nil:
+		c.Fail(sig+"/accepted", "%s: no error", desc)
+	default:
+		c.Cover("rejected", "refusal/"+kind)
+	}
+	c.Outcome("refusal", desc)
+}
+
+// ---------------------------------------------------------------------------------------------
+// Arbitrary-precision encoding (scale 2^90, encoder precision 128 bits): the matrix is encoded with the world's encoder or
+// with a ShallowCopy of it; the result must be within the noise-implied precision (worst-case ε of the same model as
+// everywhere, about 2^-70 here), far below the 2^-52 of a float64 path. Reference: exact dyadic values, big.Float arithmetic.
+
+var hpSpec = circ.CKKSSpec{LogN: 4, NQ: 5, Q0Bits: 60, QBits: 45, NP: 2, PBits: 61, LogScale: 90}
+
+func highPrecisionLeaf(c *engine.Chooser) {
+	a := getCKKSAdapter(c, hpSpec, 3)
+	w := getCKKS(c, hpSpec)
+	p := w.Params
+	useCopy := c.ChooseFree(2, "encoder") == 1
+	ratio := []int{-1, 1}[c.ChooseFree(2, "ratio")]
+	idx := [][]int{{0, 1, 3}, {-2, 5}, {0, 1, 2, 3, 4, 5, 6, 7}}[c.ChooseFree(3, "set")]
+	desc := fmt.Sprintf("ckks scale 2^90, encoder ShallowCopy=%v, ratio=%d, diagonals %v", useCopy, ratio, idx)
+	c.Note("%s", desc)
+	c.Cover("high-precision-encoder", map[bool]string{false: "original", true: "shallow-copy"}[useCopy])
+	sig := "C12/ckks/high-precision/" + map[bool]string{false: "encoder", true: "encoder-shallow-copy"}[useCopy]
+	uni.Seed(c, "high-precision", desc)
+	n := a.n
+	// dyadic values: exact in float64 and in the reference
+	v := make([]complex128, n)
+	for i := range v {
+		v[i] = complex(float64((i*5)%17-8)/16, float64((i*3)%13-6)/32)
+	}
+	diags := map[int][]complex128{}
+	for _, k := range idx {
+		r := ((k % n) + n) % n
+		d := make([]complex128, n)
+		for i := range d {
+			d[i] = complex(float64((i+2*r)%11-5)/8, float64((3*i+r)%7-3)/16)
+		}
+		diags[k] = d
+	}
+	ecd := w.Ecd
+	if useCopy {
+		ecd = w.Ecd.ShallowCopy()
+	}
+	if ecd.Prec() <= 53 {
+		panic("harness: encoder precision is not above 53 bits")
+	}
+	ct := w.Encrypt(v, a.logN, p.MaxLevel(), p.DefaultScale())
+	lp := lintrans.Parameters{DiagonalsIndexList: append([]int(nil), idx...), LevelQ: p.MaxLevel(), LevelP: p.MaxLevelP(), Scale: p.DefaultScale(),
+		LogDimensions: ct.LogDimensions, LogBabyStepGiantStepRatio: ratio}
+	lt := ckkslt.NewTransformation(p, ckkslt.Parameters(lp))
+	if err := ckkslt.Encode(ecd, ckkslt.Diagonals[complex128](diags), lt); err != nil {
+		c.Fail(sig+"/Encode/error", "%s: %v", desc, err)
+		return
+	}
+	evk := a.galoisKeys(c, ckkslt.GaloisElements(p, ckkslt.Parameters(lp)), -1, p.MaxLevelP())
+	ev, _ := a.newEval(evk)
+	out, err := ev.EvaluateNew(ct, lintrans.LinearTransformation(lt))
+	if err != nil {
+		c.Fail(sig+"/EvaluateNew/error", "%s: %v", desc, err)
+		return
+	}
+	got := make([]*bignum.Complex, n)
+	if err := w.Ecd.Decode(w.Dec.DecryptNew(out), got); err != nil {
+		c.Fail(sig+"/Decode/error", "%s: %v", desc, err)
+		return
+	}
+	var dmax []float64
+	for _, k := range sortedCopy(idx) {
+		dmax = append(dmax, maxAbs(a.f, diags[k]))
+	}
+	eps := a.ltErr(a.freshErr(p.DefaultScale()), maxAbs(a.f, v), dmax, a.fromScale(p.DefaultScale()), p.DefaultScale(), p.MaxLevel(), p.MaxLevelP(), giantSteps(idx))
+	// the float64 slack of the generic model (2^-40 of the magnitude) does not apply: the reference below is exact
+	for _, d := range dmax {
+		eps -= d * maxAbs(a.f, v) * math.Exp2(-40)
+	}
+	bf := func(x float64) *big.Float { return new(big.Float).SetPrec(256).SetFloat64(x) }
+	worst := 0.0
+	for i := 0; i < n; i++ {
+		re, im := bf(0), bf(0)
+		for k, d := range diags {
+			r := ((k % n) + n) % n
+			x := v[(i+r)%n]
+			// (a+bi)(c+di)
+			ac := new(big.Float).SetPrec(256).Mul(bf(real(d[i])), bf(real(x)))
+			bd := new(big.Float).SetPrec(256).Mul(bf(imag(d[i])), bf(imag(x)))
+			ad := new(big.Float).SetPrec(256).Mul(bf(real(d[i])), bf(imag(x)))
+			bc := new(big.Float).SetPrec(256).Mul(bf(imag(d[i])), bf(real(x)))
+			re.Add(re, ac).Sub(re, bd)
+			im.Add(im, ad).Add(im, bc)
+		}
+		dr, _ := new(big.Float).SetPrec(256).Sub(got[i][0], re).Float64()
+		di, _ := new(big.Float).SetPrec(256).Sub(got[i][1], im).Float64()
+		e := math.Hypot(dr, di)
+		worst = math.Max(worst, e)
+		if e > eps {
+			c.Fail(sig+"/value", "%s: slot %d: |decoded - exact| = 2^%.1f > eps = 2^%.1f (noise-implied precision; a float64 path gives about 2^-51)", desc, i, math.Log2(e), math.Log2(eps))
+			break
+		}
+	}
+	c.Note("max error 2^%.1f, eps 2^%.1f", math.Log2(worst+1e-300), math.Log2(eps))
+	c.Outcome("high-precision", desc)
+	c.Count(1)
 }
